@@ -10,15 +10,48 @@ use std::cell::RefCell;
 use std::task::{Context, Poll, Waker};
 
 pub struct IoH {
-    io: Io,
+    io: RefCell<Option<Io>>,
+    ioref: IoRef,
     _client: IoTest,
     log: RefCell<Vec<u8>>,
+}
+struct YieldNow(bool);
+impl std::future::Future for YieldNow {
+    type Output = ();
+    fn poll(mut self: std::pin::Pin<&mut Self>, cx: &mut Context<'_>) -> Poll<()> {
+        if self.0 {
+            Poll::Ready(())
+        } else {
+            self.0 = true;
+            cx.waker().wake_by_ref();
+            Poll::Pending
+        }
+    }
+}
+/// run `step(io, i)` for i in 0..n; between the steps control returns to the REAL ntex runtime, which
+/// polls the tasks the code under test has spawned
+pub fn with_io_steps(n: usize, mut step: impl FnMut(&IoH, usize) + 'static) {
+    ntex::rt::System::build().name("replay").testing().build(ntex::rt::DefaultRuntime).block_on(async move {
+        let (client, server) = IoTest::create();
+        let io = Io::new(server, SharedCfg::new("replay"));
+        let ioref = io.get_ref();
+        let h = IoH { io: RefCell::new(Some(io)), ioref, _client: client, log: RefCell::new(Vec::new()) };
+        let mut i = 0;
+        while i < n {
+            step(&h, i);
+            YieldNow(false).await;
+            YieldNow(false).await;
+            i += 1;
+        }
+        std::mem::forget(h);
+    })
 }
 pub fn with_io<R: 'static>(f: impl FnOnce(&IoH) -> R + 'static) -> R {
     ntex::rt::System::build().name("replay").testing().build(ntex::rt::DefaultRuntime).block_on(async move {
         let (client, server) = IoTest::create();
         let io = Io::new(server, SharedCfg::new("replay"));
-        let h = IoH { io, _client: client, log: RefCell::new(Vec::new()) };
+        let ioref = io.get_ref();
+        let h = IoH { io: RefCell::new(Some(io)), ioref, _client: client, log: RefCell::new(Vec::new()) };
         let r = f(&h);
         std::mem::forget(h);
         r
@@ -26,10 +59,14 @@ pub fn with_io<R: 'static>(f: impl FnOnce(&IoH) -> R + 'static) -> R {
 }
 impl IoH {
     pub fn ioref(&self) -> IoRef {
-        self.io.get_ref()
+        self.ioref.clone()
+    }
+    /// the io object as the dispatcher owns it (can be taken once)
+    pub fn take_boxed(&self) -> ntex_io::IoBoxed {
+        self.io.borrow_mut().take().expect("io object already taken").into()
     }
     fn sync(&self) {
-        let b = self.io.get_ref().with_write_dst_buf(|b| b.freeze());
+        let b = self.ioref.with_write_dst_buf(|b| b.freeze());
         self.log.borrow_mut().extend_from_slice(&b);
     }
     /// (offset, total length) of every complete MQTT frame in the log, and the trailing bytes that
@@ -85,13 +122,13 @@ impl IoH {
         self.parse().1
     }
     pub fn shutdown_requested(&self) -> bool {
-        self.io.is_closed() || self.io.get_ref().with_write_buf(|_| ()).is_err()
+        self.ioref.is_closed() || self.ioref.with_write_buf(|_| ()).is_err()
     }
     pub fn terminated(&self) -> bool {
-        self.io.is_closed()
+        self.ioref.is_closed()
     }
     pub fn finish_shutdown(&self) {
-        self.io.get_ref().terminate()
+        self.ioref.terminate()
     }
 }
 
